@@ -180,6 +180,10 @@ pub fn worker(property: &str, tier: &str, w: usize, n: usize, start_at: usize) -
         let trace = plan::unit_trace(&plan, u, &ctx);
         let tjson = serde_json::to_string(&trace).unwrap_or_default();
         let _ = std::fs::write(&current_file, json!({"unit_index": idx, "label": label, "trace": trace}).to_string());
+        // self-test of the death triage (never set by the registered commands): die like a stack overflow would
+        if std::env::var("MCSIM_TEST_ABORT_UNIT").ok().and_then(|v| v.parse::<usize>().ok()) == Some(u) {
+            std::process::abort();
+        }
         let out = execute(&trace, &ctx);
         idx += 1;
         sum.runs += 1;
@@ -610,6 +614,9 @@ pub fn replay(file: &str) -> i32 {
 }
 
 pub fn run_trace(file: &str, log: bool) -> i32 {
+    if std::env::var("MCSIM_TEST_ABORT_UNIT").is_ok() {
+        std::process::abort();
+    }
     let text = match std::fs::read_to_string(file) {
         Ok(t) => t,
         Err(e) => {
